@@ -84,6 +84,17 @@ CLAIMED = {
          "vendored codec are recorded as known findings",
     technique="Coq proof over executable RFC 7541 spec + differential correspondence both directions (extracted OCaml vs in-process h2.c/ls-hpack)",
     design="5/C07"),
+ "C14": dict(
+    text="Coq theorems over an executable model of configfile-glue.c's condition evaluation and cache (check_cond with parent/else-chain dependencies, "
+         "result and local_result, clear_node, reset_item, reset, operators incl. host[:port] and CIDR): with valid attributes and a coherent cache the "
+         "evaluator answers exactly what the configuration language defines and keeps the cache coherent, for every tree, every attribute assignment and "
+         "every evaluation order; last contributing block wins; tied by differential correspondence on random trees x operation sequences (rewrites + "
+         "reset_item, full resets, partially valid attributes) and judged against a reference of the language",
+    note="PARTIAL proof: coherence after reset_item (reset_item_sufficient) is checked by correspondence + language reference only (that is where the "
+         "genuine defect fixed in 32b61fb was found); regexes restricted to anchored literals (PCRE2 in the harness); per-module patch loops and "
+         "h2_init_stream inheritance not modelled; trusted: Coq kernel, extraction, harness glue, python reference",
+    technique="Coq proof over executable model + differential correspondence (extracted OCaml vs C harness) + language reference monitor",
+    design="5/C14"),
 }
 NOT_YET = "no check built yet in this round (planned, see DESIGN.md section 5)"
 
